@@ -31,6 +31,8 @@ type MCase struct {
 	Queries    []MQuery `json:"queries"`
 }
 
+const coqHeader = "From Coq Require Import Uint63.\nFrom Verif Require Import Lib.Base Stateless.Hex Stateless.Merkle Stateless.Bind.\n"
+
 func toJ(p *cmtmerkle.Proof) *proofJ {
 	return &proofJ{Total: p.Total, Index: p.Index, LeafHash: p.LeafHash, Aunts: p.Aunts}
 }
@@ -54,7 +56,8 @@ func flip(b []byte, i int) []byte {
 }
 
 type mresult struct {
-	coqIn, coqOut string
+	coq           string
+	t             *tb
 	violations    []string
 	stats         []string
 	accepted      int
@@ -79,6 +82,7 @@ func runM(c MCase) (res mresult) {
 		}
 	}()
 	r := newRec()
+	t := newTB()
 	// the model computes the root and (when asked) all the proofs
 	refRoot := r.txRoot(c.Txs)
 	root, proofs := merkle.ProofsForTransactions(c.Txs)
@@ -102,7 +106,7 @@ func runM(c MCase) (res mresult) {
 				res.violations = append(res.violations, "produced proof does not decode")
 				continue
 			}
-			coqProofs = append(coqProofs, toJ(&p).coq())
+			coqProofs = append(coqProofs, toJ(&p).coq(t))
 		}
 	}
 	var coqQ, coqV []string
@@ -112,11 +116,18 @@ func runM(c MCase) (res mresult) {
 		if q.Proof != nil {
 			raw = encodeJ(q.Proof)
 			pj = q.Proof
+		} else {
+			// the decoder is abstract in the model: raw bytes that do decode
+			// (e.g. a CBOR null) are the proof they decode to
+			var p cmtmerkle.Proof
+			if cbor.Unmarshal(raw, &p) == nil {
+				pj = toJ(&p)
+			}
 		}
 		err := merkle.VerifyTransaction(raw, q.Root, q.Tx)
 		v := merkleVerdict(err)
 		r.verifyTx(pj, q.Tx)
-		coqQ = append(coqQ, fmt.Sprintf("(%s, %s, %s)", optProof(pj), optBytes(q.Root), coqout.Bytes(q.Tx)))
+		coqQ = append(coqQ, fmt.Sprintf("(%s, %s, %s)", optProof(t, pj), t.opt(q.Root), t.B(q.Tx)))
 		coqV = append(coqV, v)
 		res.stats = append(res.stats, "alteration:"+q.Alter, "verdict:"+v)
 		if err == nil {
@@ -136,8 +147,10 @@ func runM(c MCase) (res mresult) {
 		}
 	}
 	res.nontrivial = len(c.Txs) >= 2 && len(c.Queries) > 0
-	res.coqIn = fmt.Sprintf("(%s, %s, %s, %s)", r.coq(), bytesList(c.Txs), coqout.Bool(c.WantProofs), coqout.List(coqQ))
-	res.coqOut = fmt.Sprintf("(%s, %s, %s)", coqout.Bytes(root), coqout.List(coqProofs), coqout.List(coqV))
+	in := fmt.Sprintf("(%s, %s, %s, %s)", r.coq(t), t.list(c.Txs), coqout.Bool(c.WantProofs), coqout.List(coqQ))
+	out := fmt.Sprintf("(%s, %s, %s)", t.B(root), coqout.List(coqProofs), coqout.List(coqV))
+	res.coq = "(" + in + ", " + out + ")"
+	res.t = t
 	return res
 }
 
@@ -326,18 +339,17 @@ func genMCases(r *prng.R, maxN, full, rounds int) []MCase {
 					{Alter: "empty-block-total1", Proof: &proofJ{Total: 1, Index: 0, LeafHash: root, Aunts: nil}, Root: root, Tx: []byte{}},
 				}
 			}
-			cases = append(cases, c)
 			for i := 0; i < n; i++ {
-				cases = append(cases, MCase{Txs: txs, Queries: alterations(r.Fork(), txs, root, ps, i, n <= full)})
+				c.Queries = append(c.Queries, alterations(r.Fork(), txs, root, ps, i, n <= full)...)
 			}
+			cases = append(cases, c)
 		}
 	}
 	return cases
 }
 
 func mainMerkle(seed uint64, maxN, full, rounds int, out, replay string) {
-	hdr := "From Verif Require Import Lib.Base Stateless.Merkle.\n"
-	w := coqout.NewWriter(out, hdr, "run_mcase", "mout_eqb", 40)
+	w := newCaseWriter(out, coqHeader, "run_mcase", "mout_eqb", 2)
 	sum := coqout.NewSummary("every transaction list length 0..maxn (random contents incl. empty, duplicate, 32- and 65-byte transactions): root and all proofs of ProofsForTransactions; for every index the genuine proof and altered (proof, root, tx) triples through VerifyTransaction (all ~35 alterations for lists up to -full, 4 seeded ones above); non-trivial = list of >= 2 transactions with at least one query; distinct = distinct (list, queries) descriptions")
 	var cases []MCase
 	if replay != "" {
@@ -366,7 +378,7 @@ func mainMerkle(seed uint64, maxN, full, rounds int, out, replay string) {
 			sum.Violations = append(sum.Violations, map[string]any{"what": "implementation panicked: " + res.panicked, "case": c})
 			continue
 		}
-		w.Add("("+res.coqIn+", "+res.coqOut+")", map[string]any{"case": c})
+		w.Add(res.t, res.coq, map[string]any{"case": c})
 		if len(res.violations) > 0 {
 			sc := shrinkM(c)
 			sum.Violations = append(sum.Violations, map[string]any{"what": runM(sc).violations[0], "case": sc})
